@@ -220,12 +220,13 @@ func zero(t types.Type) value {
 // checkIndex forks on "idx in [0,n)" and returns the concrete index.
 func checkIndex(idx value, n int, what string) int {
 	if s, ok := idx.(sym); ok {
-		w := s.t.w
+		// compare in 64 bits so that n is representable whatever the index width
+		t64 := Resize(s.t, 64, kindSigned(s.k))
 		var inb *Term
 		if kindSigned(s.k) {
-			inb = And(Bin(OSle, BV(w, 0), s.t), Bin(OSlt, s.t, BV(w, uint64(n))))
+			inb = And(Bin(OSle, BV(64, 0), t64), Bin(OSlt, t64, BV(64, uint64(n))))
 		} else {
-			inb = Bin(OUlt, s.t, BV(w, uint64(n)))
+			inb = Bin(OUlt, t64, BV(64, uint64(n)))
 		}
 		if !ex.Branch(inb) {
 			panic(goRuntimeError(fmt.Sprintf("runtime error: index out of range [symbolic] with length %d", n)))
@@ -407,6 +408,9 @@ func unop(instr *ssa.UnOp, x value) value {
 		t, k := termOf(x)
 		return mkVal(k, mk(ONeg, t.w, 0, t))
 	case token.MUL:
+		if sp, ok := x.(symElemPtr); ok {
+			return sp.load()
+		}
 		p := x.(*value)
 		if p == nil {
 			panic(goRuntimeError("runtime error: invalid memory address or nil pointer dereference"))
